@@ -4,6 +4,7 @@ import (
 	"fmt"
 	"go/token"
 	"go/types"
+	"strings"
 
 	"golang.org/x/tools/go/ssa"
 
@@ -21,13 +22,15 @@ func init() {
 			"(R4) packetBuffer's hand-over protocol (wait loops, guards, broadcasts, all state under its mutex); " +
 			"(R5) the reader surfaces a packet only on a done frame after bumping the id, appends only id-monotone, kind-consistent frames; " +
 			"(R6) the shared writer's buffer and sink are touched only under its mutex and hold whole frames; " +
-			"(R7) SplitData returns complementary slices and the done flag is derived from the remainder of the same split.",
+			"(R7) SplitData returns complementary slices and the done flag is derived from the remainder of the same split; " +
+			"(R8) the writer's emptiness flag agrees with its buffer; (R9) the marshal buffer and its aliases only under the write lock; " +
+			"(R10) all frames of one message in one critical section of the write lock; (R11) Get..Done of the lent packet under the stream's read lock.",
 		NotDecided: "that the delivered sequence equals the sent prefix for all sizes/chunkings/interleavings; behaviour under writer-buffer thresholds; anything about the peer. These are behavioural; the rules are necessary, not sufficient.",
 		Assumptions: []string{
 			"lock identity is access-path based (no pointer analysis): two *Stream values in one function are distinguished by their root variable",
 			"drpc.Encoding.Unmarshal does not retain the byte slice it is given (interface contract)",
 		},
-		Rules: []Rule{
+		Rules: append([]Rule{
 			{ID: "C01.R1", Doc: "frame emission (Writer.WriteFrame/Flush) and Stream.id.Message bumps only with Stream.write of the same stream held", Run: c01r1},
 			{ID: "C01.R2", Doc: "MsgSend returns nil only after flushing (or under ManualFlush); sendPacketLocked returns nil only after WriteFrame then Flush", Run: c01r2},
 			{ID: "C01.R3", Doc: "borrow discipline of packetBuffer.Get: uses before Done, no escape, Done exactly once on the success path", Run: c01r3},
@@ -39,8 +42,9 @@ func init() {
 			{ID: "C01.R9", Doc: "the marshal buffer Stream.wbuf and every slice aliasing it are used only under Stream.write", Run: c01r9},
 			{ID: "C01.R10", Doc: "the frames of one message are emitted in one critical section of Stream.write: no path emits a frame, releases Stream.write and emits another frame without a message-id bump in between", Run: c01r10},
 			{ID: "C01.R11", Doc: "the borrow packetBuffer.Get .. Done is exclusive per receiver: both calls are made with Stream.read of the same stream held", Run: c01r11},
+			{ID: "C01.S2", Doc: "the order the reader's monotonicity test uses is the lexicographic order on (Stream, Message) (= C09.R6)", Alias: "C09.R6"},
 			{ID: "C01.S1", Doc: "bytes the transport returns together with an error are parsed before the error is surfaced (nothing already received is dropped)", Alias: "C05.R8"},
-		},
+		}, disciplineRules("C01", "drpcstream", "drpcwire", "drpcmanager", "drpcconn")...),
 	})
 }
 
@@ -210,6 +214,63 @@ func c01r2(c *an.Ctx) {
 		}
 	}
 	c.Check(wrote, "(*Stream).MsgSend | calls rawWriteLocked", c.P.Pos(msgSend.Pos()), "message is written", "MsgSend no longer writes the message through rawWriteLocked")
+	// what is written is what was marshalled: the payload handed to the frame loop is the result of the marshal call
+	// of this MsgSend, not a buffer that may hold an earlier message
+	{
+		okData, nCalls := true, 0
+		var at ssa.Instruction
+		for _, fn := range extendedBody(msgSend) {
+			an.Instrs(fn, func(in ssa.Instruction) {
+				call, ok := in.(*ssa.Call)
+				if !ok {
+					return
+				}
+				callee := call.Common().StaticCallee()
+				isLoop := false
+				for _, l := range loops {
+					if callee != nil && (callee == l || callee.Origin() == l) {
+						isLoop = true
+					}
+				}
+				if !isLoop || fn == callee {
+					return
+				}
+				nCalls++
+				// the []byte argument
+				var data ssa.Value
+				for _, arg := range call.Common().Args {
+					if sl, isSl := arg.Type().Underlying().(*types.Slice); isSl {
+						if b, isB := sl.Elem().Underlying().(*types.Basic); isB && b.Kind() == types.Byte {
+							data = arg
+						}
+					}
+				}
+				fromMarshal := false
+				if ex, isEx := an.Unwrap(data).(*ssa.Extract); isEx && ex.Index == 0 {
+					if mc, isCall := ex.Tuple.(*ssa.Call); isCall {
+						if f := mc.Common().StaticCallee(); f != nil && strings.Contains(f.Name(), "Marshal") {
+							fromMarshal = true
+						}
+						if mc.Common().IsInvoke() && strings.Contains(mc.Common().Method.Name(), "Marshal") {
+							fromMarshal = true
+						}
+					}
+				}
+				if p, isP := an.Unwrap(data).(*ssa.Parameter); isP && fn != msgSend {
+					_ = p
+					fromMarshal = true // a helper writing what it was given; its caller is checked here too
+				}
+				if !fromMarshal {
+					okData, at = false, in
+				}
+			})
+		}
+		pos := c.P.Pos(msgSend.Pos())
+		if at != nil {
+			pos = c.At(at)
+		}
+		c.Check(okData && nCalls > 0, "(*Stream).MsgSend | the payload written is the result of this call's marshal", pos, "", "the frame loop is handed something else than the bytes just marshalled (the retained buffer, for instance): with a buffer-retention limit the previous message, or nothing, goes out in place of a large one")
+	}
 	nret := 0
 	for _, rc := range an.ReturnCases(msgSend) {
 		ret := rc.Ret
